@@ -20,7 +20,8 @@ def _init(facts):
 class Res:
     """picklable summary of one K2 run"""
     __slots__ = ("ctx", "df", "icao", "icao_opt", "pre", "post_update", "post_create", "stores", "obligations", "warnings",
-                 "diverged", "steps", "wall", "calllog", "new_row", "side", "gate", "message", "gate_preds", "dl", "post_update2")
+                 "diverged", "steps", "wall", "calllog", "new_row", "side", "gate", "message", "gate_preds", "dl", "post_update2",
+                 "atom_vals")
 
 
 def _run(args):
@@ -46,6 +47,7 @@ def _run(args):
         out.side = {}
         out.gate = out.message = out.dl = out.post_update2 = None
         out.gate_preds = []
+        out.atom_vals = {}
         return out
     out = Res()
     out.ctx = ctx
@@ -69,6 +71,19 @@ def _run(args):
     out.gate_preds = getattr(r, "gate_preds", [])
     out.dl = getattr(r, "dl", None)
     out.post_update2 = getattr(r, "post_update2", None)
+    # the values compared in the path-condition atoms that travel with the gate's result (C04 needs the syndrome's bits)
+    out.atom_vals = {}
+    try:
+        from .domain import EnumV, show_term
+        av = getattr(r, "atom_vals", {}) or {}
+        if isinstance(out.gate, EnumV):
+            for n_, (pl_, g_) in out.gate.variants.items():
+                for t_, tr_ in (g_ or {}).get("pc", ()):
+                    k_ = show_term(t_)
+                    if k_ in av:
+                        out.atom_vals[k_] = av[k_]
+    except Exception:
+        out.atom_vals = {}
     return out
 
 
